@@ -132,8 +132,8 @@ let handle () =
     s (tel_ctx_reject_gen neg con) ^ " " ^ s (del_ctx_reject_gen neg con)
   | "loc" ->
     let bf = nat () in let bl = nat () in let bc = nat () in let ef = nat () in let el = nat () in let ec = nat () in
-    String.concat "" (List.map (function TFile f -> Printf.sprintf "F%d" (int_of_nat f) | TNum n -> string_of_int (int_of_nat n) | TColon -> ":" | TDash -> "-")
-                        (str_location { pfile = bf; pline = bl; pcol = bc } { pfile = ef; pline = el; pcol = ec }))
+    String.concat "" (List.map (function LFile f -> Printf.sprintf "F%d" (int_of_nat f) | LNum n -> string_of_int (int_of_nat n) | LColon -> ":" | LDash -> "-")
+                        (loc_shape { pfile = bf; pline = bl; pcol = bc } { pfile = ef; pline = el; pcol = ec }))
   | "print" ->
     let h = nat () in
     let syms = list (fun () -> let f = int () <> 0 in let d = int () <> 0 in let n = nat () in
